@@ -196,6 +196,15 @@ def prune : P String := do
         | none => true
     | none => false)
   let a := { a with v := a.v.failIf badW "WitnessLP witness_below_a_best_vector" }
+  -- a `none` answer must not hide a witness: try every belief at hand (simplex probes and the certificates' beliefs)
+  let cands := probeBeliefs S ++ (certs ++ need).filterMap (fun c => c.b.bind normalize)
+  let missed := calls.find? (fun c => c.w.isNone && cands.any (fun b => violationOK S eps c.best b c.v))
+  let a := match missed with
+    | some c =>
+      let kind := if decide (M < 1000000) then "missed_witness" else "missed_witness_at_magnitude_above_1e6"
+      let msg := s!"WitnessLP {kind} v={showVec c.v} rows={c.best.length}"
+      { a with v := a.v.failIf true msg }
+    | none => a
   let a := { a with v := a.v.failIf (!(isPermB xs arr) || e > n) "Pruner not_a_permutation" }
   let a := checkRemoved "Pruner" S eps arr e certs a
   -- every kept vector is needed somewhere
@@ -266,6 +275,9 @@ def clausesCommon (comp : String) (i : InterpIn) (cv : Vec) (value : Rat) (w : V
   let v := v.failIf (!(nonneg w)) s!"{comp} weights_negative {showVec w}"
   v.failIf (decide (weightedValue cv wc wp i.vals + tolV < value)) s!"{comp} value_exceeds_weighted_sum value={ratStr value} sum={ratStr (weightedValue cv wc wp i.vals)}"
 
+/-- some coordinate of the query or of a stored point is non-zero but within the library's zero tolerance -/
+def tolZero (i : InterpIn) : Bool := (i.point :: i.pts).any (fun v => v.any (fun x => x != 0 && isZeroS x))
+
 def closeVec (a b : Vec) : Bool := a.length == b.length && (List.zipWith (fun x y => closeQ (1/1000000000) x y) a b).all id
 
 /-- `lpi S A N point ubQ pts vals | status value w dual primal` -/
@@ -290,13 +302,20 @@ def lpi : P String := do
     let v := match lpInterp srcVariant oracle i.point i.ubQ i.A i.pts i.vals with
       | some ⟨mv, some mw⟩ =>
         let v := v.diffIf (!(closeQ (1/1000000000) mv value)) s!"{comp} value model={ratStr mv} impl={ratStr value}"
-        v.diffIf (!(closeVec mw w)) s!"{comp} weights model={showVec mw} impl={showVec w}"
+        -- the LP solution is read back from the *cleaned* weights (entries ≤ 1e-6 zeroed), so the recomputed corner
+        -- weights can differ from the implementation's by that resolution (seen with coordinates of size 2^-19)
+        let okW := closeVec mw w || (mw.length == w.length &&
+          (List.zipWith (fun x y => decide (absQ (x - y) ≤ ((i.N + 1 : Nat) : Rat) * Gen.equalToleranceSmall)) mw w).all id)
+        v.diffIf (!okW) s!"{comp} weights model={showVec mw} impl={showVec w}"
       | _ => v
     let v := clausesCommon comp i cv value w v
     -- optimum clause, whenever a stored point shares the query's support
     let (lo, hi) := lpBounds i cv dual primal
     let tolV := ((i.S + i.N + 1 : Nat) : Rat) * Gen.equalToleranceSmall * M + tiny M
     if k == 0 then return v.render else
+    -- a coordinate in (0, 1e-6] is "zero" for the library but not for the exact LP: the optimum clause is then a
+    -- statement about a tolerance-sized discontinuity of the input, not decided here
+    if tolZero i then return (if v.fails.isEmpty then "skip tolerance_sized_coordinate" else v.render) else
     match lo, hi with
     | some lo, some hi =>
       let v := v.failIf (decide (value + tolV < lo)) s!"{comp} value_below_lp_optimum value={ratStr value} dual_bound={ratStr lo}"
@@ -333,6 +352,7 @@ def saw : P String := do
     let tolV := ((i.S + i.N + 1 : Nat) : Rat) * Gen.equalToleranceSmall * M + tiny M
     let v := v.failIf (decide (dot i.point cv + tolV < value)) s!"{comp} value_above_corner_bound value={ratStr value}"
     let (lo, _) := lpBounds i cv dual primal
+    if tolZero i then return (if v.fails.isEmpty then "skip tolerance_sized_coordinate" else v.render) else
     match lo with
     | some lo =>
       let floor := minQ lo (basicV i.point i.ubQ i.A)
